@@ -90,9 +90,11 @@ IsStableSortVia(in, out, lt(_, _), p) ==
   /\ \A i \in 1..Len(in) : out[i] = in[p[i]]
   /\ \A i, j \in 1..Len(in) : i < j => ~lt(out[j], out[i])
   /\ \A i, j \in 1..Len(in) : (i < j /\ ~lt(out[i], out[j])) => p[i] < p[j]
-IsStableSort(in, out, lt(_, _)) ==
+\* P: the permutations of 1..Len(in) (a parameter so that a model can tabulate them once)
+IsStableSortP(in, out, lt(_, _), P) ==
   /\ Len(out) = Len(in)
-  /\ \E p \in Perms(Len(in)) : IsStableSortVia(in, out, lt, p)
+  /\ \E p \in P : IsStableSortVia(in, out, lt, p)
+IsStableSort(in, out, lt(_, _)) == IsStableSortP(in, out, lt, Perms(Len(in)))
 
 Eqv(lt(_, _), a, b) == ~lt(a, b) /\ ~lt(b, a)
 Sel(s, P(_)) == SelectSeq(s, P)
